@@ -63,6 +63,15 @@ def _parse_quoted(s):
     return mm.group(2), mm.group(4)
 
 
+def _split_anchor(rest):
+    """'<anchor>: <text>' where the anchor may contain a quoted needle with ':' inside"""
+    mm = re.match(r"(.*?\b(?:before|after|wrap)\s+\d+\s+(`{1,3}|'{1,3}).*?\2)\s*:(.*)$", rest, re.S)
+    if mm:
+        return mm.group(1), mm.group(3)
+    a, _, t = rest.partition(':')
+    return a, t
+
+
 def parse_vc(path):
     """A .vc file holds one or more contracts, each starting with an @fn line."""
     contracts = []
@@ -124,10 +133,10 @@ def parse_vc(path):
             else:
                 L['iter'] = arg.strip()
         elif head == '@ghost':
-            anchor, _, text = rest.partition(':')
+            anchor, text = _split_anchor(rest)
             cur.hints.append((anchor.strip(), '__raw__', text.strip('\n'), False))
         elif head in ('@hint', '@assert'):
-            anchor, _, text = rest.partition(':')
+            anchor, text = _split_anchor(rest)
             label = None
             if head == '@assert':
                 # @assert <label> @ <anchor>: expr
@@ -453,6 +462,26 @@ def weave_fn(fn_text, contract, unit, log, features_on, in_trait_impl=False, rea
             hn = 0
             for (anchor, label, htext, is_ob) in contract.hints:
                 hn += 1
+                wm = re.match(r"wrap\s+(\d+)\s+(`{1,3}|'{1,3})(.*?)\2$", anchor.strip(), re.S)
+                if wm:
+                    # R17: a brace-less match-arm expression `=> match X { .. }` is wrapped into a block so that a
+                    # proof block can precede it: `=> { proof {..} match X { .. } }`
+                    n, needle = int(wm.group(1)), wm.group(3)
+                    if not needle.rstrip().endswith('{'):
+                        raise Unsupported("%s: wrap anchor must end with '{'" % name)
+                    pos, st = -1, body_open
+                    for _ in range(n):
+                        pos = text.find(needle, st)
+                        if pos < 0 or pos > body_close:
+                            raise LostAnchor("%s: wrap anchor %r (occurrence %d) not found" % (name, needle, n))
+                        st = pos + 1
+                    ob_ = pos + len(needle.rstrip()) - 1
+                    cl_ = match_brace(text, mask, ob_)
+                    tag = dict(ob='%s.hint%d' % (qual, hn), kind='hint', fn=name, text=htext)
+                    ins(pos, [Piece('{\nproof { '), Piece(htext, tag), Piece(' }\n')])
+                    ins(cl_ + 1, [Piece(' }')])
+                    log.append(dict(rule='R17', fn=name, what='arm expression wrapped in a block: ' + needle[:60]))
+                    continue
                 off = _anchor_offset(anchor, text, mask, body_open, body_close, loops, name)
                 if label == '__raw__':
                     ins(off, [Piece('\n' + htext + '\n')])
